@@ -381,6 +381,77 @@ Theorem C13_generated_expansion_kernels_are_the_model : forall zin x y f zout,
 Proof. exact (fun zin x y f zout => conj (GenEqZoom.gen_HorizontalZoomMinMax_eq zin x y zout) (GenEqZoom.gen_VerticalZoom_minmax_eq zin f zout)). Qed.
 Print Assumptions C13_generated_expansion_kernels_are_the_model.
 
+(* ---- the TileXYZ object: setters and getters (model: record update). (e, t') := apply_op t (SetX x) is "error?, object afterwards" ---- *)
+Theorem C13_SetX_get_set_and_frame : forall t x,
+  let '(e, t') := apply_op t (SetX x) in e = false /\ tx t' = x /\ th t' = th t /\ ty t' = ty t /\ tv t' = tv t /\ tz t' = tz t.
+Proof. exact set_x_spec. Qed.
+Print Assumptions C13_SetX_get_set_and_frame.
+Theorem C13_SetY_get_set_and_frame : forall t y,
+  let '(e, t') := apply_op t (SetY y) in e = false /\ ty t' = y /\ th t' = th t /\ tx t' = tx t /\ tv t' = tv t /\ tz t' = tz t.
+Proof. exact set_y_spec. Qed.
+Print Assumptions C13_SetY_get_set_and_frame.
+Theorem C13_SetZ_get_set_and_frame : forall t z,
+  let '(e, t') := apply_op t (SetZ z) in e = false /\ tz t' = z /\ th t' = th t /\ tx t' = tx t /\ ty t' = ty t /\ tv t' = tv t.
+Proof. exact set_z_spec. Qed.
+Print Assumptions C13_SetZ_get_set_and_frame.
+Theorem C13_SetHZoom_get_set_frame_and_refusal : forall t h, let '(e, t') := apply_op t (SetH h) in
+  (0 <= h <= 35 -> e = false /\ th t' = h /\ tx t' = tx t /\ ty t' = ty t /\ tv t' = tv t /\ tz t' = tz t) /\
+  (~ 0 <= h <= 35 -> e = true /\ t' = t).
+Proof. exact set_h_spec. Qed.
+Print Assumptions C13_SetHZoom_get_set_frame_and_refusal.
+Theorem C13_SetVZoom_get_set_frame_and_refusal : forall t v, let '(e, t') := apply_op t (SetV v) in
+  (0 <= v <= 35 -> e = false /\ tv t' = v /\ th t' = th t /\ tx t' = tx t /\ ty t' = ty t /\ tz t' = tz t) /\
+  (~ 0 <= v <= 35 -> e = true /\ t' = t).
+Proof. exact set_v_spec. Qed.
+Print Assumptions C13_SetVZoom_get_set_frame_and_refusal.
+Theorem C13_refused_setter_leaves_the_object_unchanged : forall t o, fst (apply_op t o) = true -> snd (apply_op t o) = t.
+Proof. exact apply_op_error_keeps_object. Qed.
+Print Assumptions C13_refused_setter_leaves_the_object_unchanged.
+
+(* whatever the sequence of setter calls, an object that started as the zero value or came from NewTileXYZ keeps both zooms in 0..35 and
+   is a tile NewTileXYZ could have returned: the conversions never see another zoom *)
+Theorem C13_setters_keep_zooms_valid : forall t ops, zooms_valid t -> zooms_valid (final_tile t ops).
+Proof. exact setters_keep_zooms_valid. Qed.
+Print Assumptions C13_setters_keep_zooms_valid.
+Theorem C13_new_tile_and_zero_value_have_valid_zooms :
+  zooms_valid zero_tile /\ forall h x y v z t, new_tile h x y v z = Ok t -> zooms_valid t.
+Proof. exact (conj zero_tile_zooms_valid new_tile_zooms_valid). Qed.
+Print Assumptions C13_new_tile_and_zero_value_have_valid_zooms.
+Theorem C13_reachable_tile_is_constructible : forall t, zooms_valid t -> new_tile (th t) (tx t) (ty t) (tv t) (tz t) = Ok t.
+Proof. exact reachable_tile_is_constructible. Qed.
+Print Assumptions C13_reachable_tile_is_constructible.
+(* the run-time checker of an observed setter trace (each call judged from the state observed before it) accepts exactly the model's trace *)
+Theorem C13_setter_trace_checker : forall prev ops obs, check_trace prev ops obs = true <-> obs = run_ops prev ops.
+Proof. exact check_trace_spec. Qed.
+Print Assumptions C13_setter_trace_checker.
+
+(* ---- the zoom domain through the constant regenerated from /repo (consts.MaxTileXYZZoom): an edit of the constant breaks these ---- *)
+From SID Require TileGen.
+Theorem C13_NewTileXYZ_accepts_exactly_the_generated_zoom_range : forall h x y v z,
+  new_tile h x y v z = Ok (mkt h x y v z) <-> 0 <= h <= Generated.MaxTileXYZZoom /\ 0 <= v <= Generated.MaxTileXYZZoom.
+Proof. exact TileGen.new_tile_generated_limit. Qed.
+Print Assumptions C13_NewTileXYZ_accepts_exactly_the_generated_zoom_range.
+Theorem C13_zoom_setters_accept_exactly_the_generated_zoom_range : forall t z,
+  (fst (apply_op t (SetH z)) = false <-> 0 <= z <= Generated.MaxTileXYZZoom) /\
+  (fst (apply_op t (SetV z)) = false <-> 0 <= z <= Generated.MaxTileXYZZoom).
+Proof. exact TileGen.set_zoom_generated_limit. Qed.
+Print Assumptions C13_zoom_setters_accept_exactly_the_generated_zoom_range.
+Theorem C13_tile_zoom_domain_is_the_conversion_window : forall h v,
+  ext_check_zoom h v = ((0 <=? h) && (h <=? Generated.MaxTileXYZZoom)) && ((0 <=? v) && (v <=? Generated.MaxTileXYZZoom)).
+Proof. exact TileGen.tile_zoom_domain_is_the_conversion_window. Qed.
+Print Assumptions C13_tile_zoom_domain_is_the_conversion_window.
+Theorem C13_tile_zoom_test_is_the_generated_window : forall z, tile_zoom_ok z = (0 <=? z) && (z <=? Generated.MaxTileXYZZoom).
+Proof. exact TileGen.tile_zoom_ok_generated. Qed.
+Print Assumptions C13_tile_zoom_test_is_the_generated_window.
+
+(* ---- the zoom window observed through the hook VerifExtendedSpatialIDCheckZoom: the checker says "true exactly on 0..35 x 0..35" ---- *)
+Theorem C13_zoom_window_checker : forall h v b, zoom_window_b h v b = true <-> (b = true <-> 0 <= h <= 35 /\ 0 <= v <= 35).
+Proof. exact zoom_window_b_spec. Qed.
+Print Assumptions C13_zoom_window_checker.
+Theorem C13_zoom_window_model : forall h v, zoom_window_b h v (ext_check_zoom h v) = true.
+Proof. exact ext_check_zoom_window. Qed.
+Print Assumptions C13_zoom_window_model.
+
 (* ---- non-vacuity ---- *)
 (* the documentation's examples 1 and 3 *)
 Example C13_doc_example_1 : tiles_to_eids [mkt 20 85263 65423 23 0] 25 8 23 = Ok [mk 20 85263 65423 23 (-2)].
@@ -415,3 +486,9 @@ Proof. exact tiles_to_sids_may_repeat. Qed.
 (* the hypotheses of the cover theorem are satisfiable: the point (u, w, altitude 2.5 m) of tile (1, 0, 1, 25, 2) with E = 25, O = 0 *)
 Example C13_cover_hypotheses_satisfiable : inT 25 0 (mkt 1 0 1 25 2) (0.25, 0.75, 2.5 * / 33554432)%R.
 Proof. exact cover_hypotheses_satisfiable. Qed.
+(* a setter sequence on the zero value: refused calls (36, -1, 40) leave the object unchanged *)
+Example C13_setter_sequence :
+  run_ops zero_tile [SetH 36; SetH 20; SetX (-7); SetV (-1); SetV 23; SetZ 5; SetH 40] =
+  [(true, mkt 0 0 0 0 0); (false, mkt 20 0 0 0 0); (false, mkt 20 (-7) 0 0 0); (true, mkt 20 (-7) 0 0 0); (false, mkt 20 (-7) 0 23 0);
+   (false, mkt 20 (-7) 0 23 5); (true, mkt 20 (-7) 0 23 5)].
+Proof. exact setter_sequence_example. Qed.
